@@ -14,7 +14,7 @@
    names on every construction), which is how the model selects. *)
 From Coq Require Import ZArith List Bool.
 From Batchie Require Import Lib.Sexp Generated.Consts Model.Encode Model.Screen Model.Reveal Model.Holdout
-  Proofs.C03Base Proofs.C03Screen Proofs.C12Reveal Proofs.C12Counters.
+  Proofs.C03Base Proofs.C03Screen Proofs.C12Reveal Proofs.C12Counters Proofs.C03Frozen Proofs.C12Defined Proofs.C03Witness.
 Import ListNotations.
 Open Scope Z_scope.
 
@@ -28,6 +28,12 @@ Theorem C12_atomic_invariant_lifecycle : forall v p sel test ops s,
   lifecycle v p sel test ops = Ok s -> plate_uniform (s_rows s) = true.
 Proof. exact atomic_invariant_lifecycle. Qed.
 Print Assumptions C12_atomic_invariant_lifecycle.
+
+(* no operation of a history is ever refused because a plate would become mixed (error tag 2) *)
+Theorem C12_history_never_mixed : forall v ops s0 s o,
+  constructed s0 -> history v ops s0 = Ok s -> step v s o <> Err 2.
+Proof. exact history_never_mixed. Qed.
+Print Assumptions C12_history_never_mixed.
 
 (* what plate_uniform says: rows of one plate have one mask *)
 Theorem C12_plate_uniform_meaning : forall rows,
@@ -62,6 +68,33 @@ Theorem C12_reveal_monotone : forall v s ids s' i r r',
 Proof. exact reveal_monotone. Qed.
 Print Assumptions C12_reveal_monotone.
 
+(* revealing is defined whenever its two guards pass (any variant; a call site that passes the mappings on
+   needs them to pass the constructor's check, which holds for both halves of a split and is preserved) *)
+Theorem C12_reveal_defined : forall v s ids,
+  constructed s -> (carry_reveal v = true -> mappings_valid s) ->
+  forallb obs_is_zero (revealed_values s ids) = false -> existsb obs_is_nan (revealed_values s ids) = false ->
+  exists s', reveal_plates v s ids = Ok s'.
+Proof. exact reveal_defined. Qed.
+Print Assumptions C12_reveal_defined.
+
+Theorem C12_step_defined : forall v s o,
+  constructed s -> (carries v o = true -> mappings_valid s) ->
+  match o with
+  | Reveal ids => forallb obs_is_zero (revealed_values s ids) = false /\ existsb obs_is_nan (revealed_values s ids) = false
+  | _ => True
+  end -> exists s', step v s o = Ok s'.
+Proof. exact step_defined. Qed.
+Print Assumptions C12_step_defined.
+
+Theorem C12_repaired_lifecycle_defined : forall p sel test ops s o,
+  lifecycle (carry_mappings true) p sel test ops = Ok s ->
+  match o with
+  | Reveal ids => forallb obs_is_zero (revealed_values s ids) = false /\ existsb obs_is_nan (revealed_values s ids) = false
+  | _ => True
+  end -> exists s', step (carry_mappings true) s o = Ok s'.
+Proof. exact repaired_lifecycle_defined. Qed.
+Print Assumptions C12_repaired_lifecycle_defined.
+
 (* ---- unobserved_drop ---- *)
 Theorem C12_unobserved_drop : forall v s ids s',
   plates_encoded s -> reveal_plates v s ids = Ok s' ->
@@ -69,6 +102,25 @@ Theorem C12_unobserved_drop : forall v s ids s',
   n_plates s' = n_plates s /\ unique_plate_ids s' = unique_plate_ids s.
 Proof. exact unobserved_drop. Qed.
 Print Assumptions C12_unobserved_drop.
+
+(* what is counted: newly_revealed is the duplicate-free list of the screen's plate ids that are named in ids
+   (however often, among whatever unknown ids) and were not observed; a plate is observed iff all its rows are *)
+Theorem C12_newly_revealed_meaning : forall s ids,
+  NoDup (newly_revealed s ids) /\
+  forall pid, In pid (newly_revealed s ids) <-> (In pid (s_pids s) /\ In pid ids /\ plate_observed s pid = false).
+Proof. exact newly_revealed_spec. Qed.
+Print Assumptions C12_newly_revealed_meaning.
+
+Theorem C12_unique_plate_ids_meaning : forall s,
+  NoDup (unique_plate_ids s) /\ forall pid, In pid (unique_plate_ids s) <-> In pid (s_pids s).
+Proof. exact unique_plate_ids_spec. Qed.
+Print Assumptions C12_unique_plate_ids_meaning.
+
+Theorem C12_plate_observed_meaning : forall s pid,
+  plate_observed s pid = true <->
+  (forall r, In (r, pid) (combine (s_rows s) (s_pids s)) -> r_mask r = true).
+Proof. exact plate_observed_spec. Qed.
+Print Assumptions C12_plate_observed_meaning.
 
 Theorem C12_counters_add_up : forall s, (n_observed_plates s + n_unobserved_plates s = n_plates s)%nat.
 Proof. exact observed_plus_unobserved. Qed.
@@ -164,3 +216,46 @@ Theorem C12_save_load_exact : forall s s',
   s_rows s' = s_rows s /\ s_pids s' = s_pids s /\ s_pmap s' = s_pmap s.
 Proof. exact save_load_exact. Qed.
 Print Assumptions C12_save_load_exact.
+
+(* ---- non-vacuity (vm_compute).  w_parent (Proofs/C03Witness.v): plates p0 (unobserved, values 0.5 0.25),
+   p1, p2 (observed); plate ids 0 1 2. ---- *)
+Definition view (r : result screen) : option (list bool * nat) :=
+  match r with Ok s => Some (map r_mask (s_rows s), n_unobserved_plates s) | Err _ => None end.
+
+(* reveal plate 0, named twice, among an already observed and an unknown id: exactly p0 becomes observed,
+   the counter drops from 1 to 0 = by the one newly revealed plate *)
+Example C12_reveal_example :
+  view (Ok w_parent) = Some ([false; false; true; true; true; true], 1%nat) /\
+  view (reveal_plates (carry_mappings false) w_parent [0; 2; 0; 99]) = Some ([true; true; true; true; true; true], 0%nat) /\
+  newly_revealed w_parent [0; 2; 0; 99] = [0].
+Proof. vm_compute. repeat split; reflexivity. Qed.
+
+(* revealing only already observed plates changes nothing; empty and unknown selections are refused *)
+Example C12_reveal_observed_example :
+  view (reveal_plates (carry_mappings true) w_parent [1; 2]) = view (Ok w_parent) /\
+  reveal_plates (carry_mappings false) w_parent [] = Err 8 /\ reveal_plates (carry_mappings false) w_parent [99; -3] = Err 8.
+Proof. vm_compute. repeat split; reflexivity. Qed.
+
+(* a plate whose stored values are +0.0 and -0.0 is refused (8); one containing a NaN is refused (9) *)
+Definition zrow (p obs : Z) : row :=
+  {| r_sample := [97]; r_plate := [p]; r_treats := [([120], 1)]; r_obs := obs; r_mask := false |}.
+Example C12_refuse_example :
+  (dor s <- mk_screen [zrow 48 0; zrow 48 two63; zrow 49 9221120237041090560; zrow 49 4602678819172646912] 1 [] None None true true;
+   Ok (reveal_plates (carry_mappings false) s [0], reveal_plates (carry_mappings false) s [1],
+       reveal_plates (carry_mappings false) s [0; 1]))
+  = Ok (Err 8, Err 9, Err 9).
+Proof. vm_compute. reflexivity. Qed.
+
+(* constructor: a plate with mixed status is rejected *)
+Example C12_mixed_example :
+  mk_screen [zrow 48 1; with_mask true (zrow 48 1)] 1 [] None None true true = Err 2.
+Proof. vm_compute. reflexivity. Qed.
+
+(* set_observed on part of a plate is outside the atomicity clause: it leaves the plate mixed, and the next
+   constructor call (here an unrelated reveal) is refused with the mixed-plate error *)
+Example C12_set_observed_example :
+  (dor s <- set_observed w_parent [true; false; false; false; false; false] [4607182418800017408];
+   Ok (map r_obs (firstn 2 (s_rows s)), map r_mask (firstn 2 (s_rows s)), plate_uniform (s_rows s),
+       reveal_plates (carry_mappings false) s [1]))
+  = Ok ([4607182418800017408; 4598175219545276416], [true; false], false, Err 2).
+Proof. vm_compute. reflexivity. Qed.
